@@ -41,7 +41,37 @@ def gen_cases(tier, seed):
             "perturb": r.choice(["instr", "instr", "instr", "line", "none"]) if W > 1 else "none",
             "cfg": {"out": r.choice(["all", "all", "sinks", "sinks", "struct", "node"])},
         })
+    for i in range(n // 5):
+        # k calls finishing together -> literal -> d, and a slow e -> d: a literal processed twice (lost atomicity of decrement+test)
+        # releases d while e is still running. Literals are the only nodes that can be processed twice without failing.
+        s = env.seed_for(seed, ID, tier, "hubrace", i)
+        r = random.Random(env.seed_for(s, "descriptor"))
+        k = r.randint(2, 6)
+        out.append({"seed": s, "mode": "hubrace", "k": k, "n": k + 2, "W": k + r.choice([1, 2, 4]), "sched": r.choice(["default", "random"]),
+                    "perturb": r.choice(["instr", "instr", "line"]), "chain": r.randint(0, 2), "delays": "none"})
     return out
+
+
+def hubrace_ir(desc):
+    from vmon import ir as irmod
+
+    ir = irmod.IR()
+    ps = [ir.add("call", fname=f"fn{i % 3}") for i in range(desc["k"])]
+    prev = ps
+    lits = []
+    for _ in range(1 + desc["chain"]):
+        lit = ir.add("lit", value="hub")
+        for p in prev:
+            ir.deps.append((p.id, lit.id))
+        lits.append(lit)
+        prev = [lit]
+    e = ir.add("call", fname="slow")
+    # the literal is an ARGUMENT of d (a literal with plain-dependency successors only would be pruned and bridged)
+    d = ir.add("call", fname="join", args=[irmod.ref(lits[-1].id), irmod.ref(e.id)])
+    ir.output = irmod.ref(d.id)
+    ir.meta["family"] = "hubrace"
+    ir.meta["slow"] = e.id
+    return ir
 
 
 def check_history(ir, H):
@@ -82,7 +112,27 @@ def contended_joins(ir, H):
 
 
 def run_case(desc):
-    R = plainrun.execute(desc, record_args=False)
+    if desc.get("mode") == "hubrace":
+        import time
+
+        import threading
+
+        ir0 = hubrace_ir(desc)
+        slow = ir0.meta["slow"]
+        bar = threading.Barrier(desc["k"])
+
+        def pre(nid, att):
+            if nid == slow:
+                time.sleep(0.004)
+            elif nid < desc["k"]:
+                try:
+                    bar.wait(0.2)  # the k predecessors of the literal finish together
+                except threading.BrokenBarrierError:
+                    pass
+
+        R = plainrun.execute(desc, record_args=False, ir=ir0, pre=pre)
+    else:
+        R = plainrun.execute(desc, record_args=False)
     ir, H = R.ir, R.H
     counters, sets = {}, {}
     checked, bad = check_history(ir, H)
@@ -105,6 +155,7 @@ def run_case(desc):
     elif R.exc is not None and not R.fail:
         res.update(status="inconclusive", detail=f"run raised unexpectedly: {R.exc!r} cause={R.exc.__cause__!r}")
     counters["runs_with_failing_predecessors"] = int(bool(R.fail))
+    counters["hubrace_runs"] = int(desc.get("mode") == "hubrace")
     return res
 
 
